@@ -681,11 +681,19 @@ func closeToken(idx, count, cpos, match int, pos map[int]int, line []rune, split
 
 // newlines gives the indexes of all newline characters in the line.
 func (l *Line) newlines() [][]int {
-	line := string(*l)
-	line += string(inputrc.Newline)
-	nl := regexp.MustCompile(string(inputrc.Newline))
+	var indexes [][]int
 
-	return nl.FindAllStringIndex(line, -1)
+	// Positions are rune indexes in the line, not byte offsets.
+	for pos, char := range *l {
+		if char == inputrc.Newline {
+			indexes = append(indexes, []int{pos, pos + 1})
+		}
+	}
+
+	// The end of the line counts as a newline.
+	indexes = append(indexes, []int{l.Len(), l.Len() + 1})
+
+	return indexes
 }
 
 // returns bpos, epos ordered and true if either is valid.
